@@ -59,7 +59,9 @@ fn hash_ipv4_flow(ip_packet: &[u8], num_workers: usize) -> Option<usize> {
     }
 
     // IPv4 header is variable length (IHL field)
-    let ihl = (ip_packet[0] & 0x0F) as usize;
+    // A header length below 5 words is invalid; the packet views used for analysis then take the
+    // TCP header to start after the 20 fixed bytes, and the ports must be read from there too
+    let ihl = ((ip_packet[0] & 0x0F) as usize).max(5);
     let ip_header_len = ihl.saturating_mul(4);
 
     if ip_packet.len() < ip_header_len.saturating_add(4) {
